@@ -63,9 +63,15 @@ CLAIMED = {
           "C12_disabled_504 proved; the complete 3072-point configuration space enumerated on the real server (TLS-active points over a real "
           "handshake) with one probe command per extension.",
           "DESIGN.md 7 C12", "Lean 4 proof + exhaustive configuration enumeration (conv probe)", "crypto/tls not modelled"),
- "C13": C("Attribution specification (k-th status of an address to its k-th occurrence, return value otherwise) as executable judge on LMTP "
-          "conversations with duplicate recipients, status scripts, panics, DATA and BDAT, both backend kinds; compared with the model.",
-          "DESIGN.md 7 C13", CONV, "theorem C13_attribution pending; out-of-contract status calls on the DATA path are schedule dependent and not generated"),
+ "C13": C("Proved: C13_mechanism (conn.go's statusCollector as it is built - one buffered channel per distinct address with capacity = "
+          "occurrences, SetStatus, fillRemaining, receive in RCPT order - delivers exactly the specified attribution: the j-th occurrence of an "
+          "address gets the j-th status set for it, the return value otherwise; for every recipient list and every in-contract call sequence), "
+          "C13_one_per_recipient (one status per accepted recipient, in order), C13_contract_agrees + C13_attribution (the server model's "
+          "bookkeeping accepts exactly when the channels do not panic and writes the same statuses), C13_model_is_spec. Implementation: the "
+          "attribution specification as executable judge on LMTP conversations with duplicate and case-variant recipients, refused recipients, "
+          "status scripts, panics, DATA and BDAT, both backend kinds; compared with the model.",
+          "DESIGN.md 0.3 + 7 C13", "Lean 4 proof (channel mechanism = attribution spec = model bookkeeping) + judge + differential correspondence (conv probe)",
+          "the channel model is a model of Go channels (FIFO, non-blocking send with default); goroutine timing of the delivery is decided by the sched probe; out-of-contract status calls on the DATA path are schedule dependent and not generated"),
  "C14": C("Proved: C14_xtext_roundtrip (decodeXtext (encodeXtext s) = s for every string over 7-bit ASCII) and C14_monitor_model. All five codec functions compared with the Lean model on every Unicode scalar value (thorough) and short strings over the significant alphabet; round-trip laws judged on the implementation's own encode/decode pairs; e2e probe: the real client talks to the real server and the options the backend observed are compared field by field with those given (every string option from the alphabet, option subsets, RRVS instants in several zones).",
           'DESIGN.md 0.3 + 7 C14', 'Lean 4 proof (xtext) + executable codec model + law monitors + differential correspondence (xtext, rt, e2e probes)',
           'utf-8-addr-xtext / unitext round trips are decided by exhaustive enumeration of scalar values against the model and the law monitor, not yet by a theorem'),
@@ -104,7 +110,7 @@ CLAIMED = {
 }
 # properties whose check audits at least one machine-checked theorem today (the others are claimed at the level of
 # their correspondence/monitor check until their theorems land)
-PROVED = {"C01", "C02", "C04", "C06", "C07", "C09", "C10", "C12", "C14", "C15", "C16", "C17", "C19", "C20"}
+PROVED = {"C01", "C02", "C04", "C06", "C07", "C09", "C10", "C12", "C13", "C14", "C15", "C16", "C17", "C19", "C20"}
 NA_REASON = "check not built yet (work in progress, see DESIGN.md section 10)"
 
 m = {"version": 1, "setup_cmd": "./setup.sh",
